@@ -45,6 +45,9 @@ func (s *recSink) Write(p []byte) (int, error) {
 // disjoint payload alphabets; none of them contains a byte that occurs inside the generated ANSI sequences
 var alphabets = []string{"acdfg", "jknop", "qrsuv", "wxyzb", "ACDEF", "GIJLM", "NOPQR", "STUVW"}
 
+// second stream of a task (stderr written concurrently with stdout): its own alphabet per task
+var alphabets2 = []string{"@%&", "+_-", "^:.", ",|/", "!{}", "`*$", "\"'\\", "XYZ"}
+
 var ansiSeqs = []string{"\x1b[31m", "\x1b[0m", "\x1b[1;32m", "\x1b[38;5;196m", "\x1b[2K", "\x1b[10;20H", "\x1b]0;title\x07", "\x1b[?25l", "\x1b(B", "\x1b[m"}
 
 type decoStream struct {
@@ -57,7 +60,10 @@ type decoStream struct {
 }
 
 func genStream(r *h.Rand, ti int, allowAnsiSplit bool) decoStream {
-	alpha := alphabets[ti]
+	return genStreamAlpha(r, ti, allowAnsiSplit, alphabets[ti], true)
+}
+
+func genStreamAlpha(r *h.Rand, ti int, allowAnsiSplit bool, alpha string, spaces bool) decoStream {
 	var b bytes.Buffer
 	type span struct{ a, b int }
 	var ansiSpans []span
@@ -82,7 +88,7 @@ func genStream(r *h.Rand, ti int, allowAnsiSplit bool) decoStream {
 				b.WriteString(s)
 				hasAnsi = true
 			}
-			if r.Chance(2) {
+			if spaces && r.Chance(2) {
 				b.WriteByte(' ')
 			} else {
 				b.WriteByte(alpha[r.Intn(len(alpha))])
@@ -165,8 +171,9 @@ func runDecoCase(a args, idx int, r *h.Rand, format string) {
 		nt = 1
 	}
 	allowSplit := r.Chance(50)
+	dual := r.Chance(35) // every task also writes a second stream to Stderr() from another goroutine, as an external command does
 	sink := &recSink{}
-	var streams []decoStream
+	var streams, streams2 []decoStream
 	var tasks []*task.Task
 	var outs []*output.TaskOutput
 	for i := 0; i < nt; i++ {
@@ -179,6 +186,9 @@ func runDecoCase(a args, idx int, r *h.Rand, format string) {
 		tasks = append(tasks, t)
 		outs = append(outs, o)
 		streams = append(streams, genStream(r, i, allowSplit))
+		if dual {
+			streams2 = append(streams2, genStreamAlpha(r, i, allowSplit, alphabets2[i], false))
+		}
 	}
 	out.Begin(fmt.Sprintf("deco#%d %s tasks=%d", idx, format, nt))
 	var wg sync.WaitGroup
@@ -188,16 +198,31 @@ func runDecoCase(a args, idx int, r *h.Rand, format string) {
 		go func(i int) {
 			defer wg.Done()
 			w := outs[i].Stdout()
-			if i%3 == 2 {
+			if i%3 == 2 && !dual {
 				w = outs[i].Stderr()
 			}
 			outs[i].Start()
+			var wg2 sync.WaitGroup
+			if dual {
+				wg2.Add(1)
+				go func() {
+					defer wg2.Done()
+					w2 := outs[i].Stderr()
+					for _, c := range streams2[i].Chunks {
+						n, err := w2.Write([]byte(c))
+						if err != nil || n != len(c) {
+							short[i] = fmt.Sprintf("stderr Write(%d bytes) returned %d, %v", len(c), n, err)
+						}
+					}
+				}()
+			}
 			for _, c := range streams[i].Chunks {
 				n, err := w.Write([]byte(c))
 				if err != nil || n != len(c) {
 					short[i] = fmt.Sprintf("Write(%d bytes) returned %d, %v", len(c), n, err)
 				}
 			}
+			wg2.Wait()
 			outs[i].Finish()
 		}(i)
 	}
@@ -214,7 +239,16 @@ func runDecoCase(a args, idx int, r *h.Rand, format string) {
 	if anySplit {
 		sfx = "/ansi-split-across-writes"
 	}
-	cas := map[string]interface{}{"format": format, "tasks": nt, "streams": clipStreams(streams)}
+	cas := map[string]interface{}{"format": format, "tasks": nt, "streams": clipStreams(streams), "two_streams_per_task": dual}
+	if dual {
+		out.Count("cases_with_two_streams", 1)
+		for _, s2 := range streams2 {
+			if s2.AnsiSplit {
+				anySplit = true
+				sfx = "/ansi-split-across-writes"
+			}
+		}
+	}
 	var sinkSample []string
 	for i, w := range sink.writes {
 		if i < 12 {
@@ -231,8 +265,13 @@ func runDecoCase(a args, idx int, r *h.Rand, format string) {
 	for i, s := range streams {
 		written[i] = []byte(strings.Join(s.Chunks, ""))
 		logb := tasks[i].Log.Stdout.Bytes()
-		if i%3 == 2 {
+		if i%3 == 2 && !dual {
 			logb = tasks[i].Log.Stderr.Bytes()
+		}
+		if dual {
+			if w2 := []byte(strings.Join(streams2[i].Chunks, "")); !bytes.Equal(tasks[i].Log.Stderr.Bytes(), w2) {
+				out.Viol("C19", format+"/task-log-differs", fmt.Sprintf("task %d: the stderr log has %d bytes, %d bytes were written", i, tasks[i].Log.Stderr.Len(), len(w2)), cas)
+			}
 		}
 		if !bytes.Equal(logb, written[i]) {
 			out.Viol("C19", format+"/task-log-differs", fmt.Sprintf("task %d: the task log has %d bytes, %d bytes were written", i, len(logb), len(written[i])), cas)
@@ -241,7 +280,7 @@ func runDecoCase(a args, idx int, r *h.Rand, format string) {
 	if format == output.FormatRaw {
 		// per task: the sink's bytes of that task's alphabet, in order, are its bytes
 		all := bytes.Join(sink.writes, nil)
-		if nt == 1 {
+		if nt == 1 && !dual {
 			if !bytes.Equal(all, written[0]) {
 				out.Viol("C19", "raw/bytes-differ", fmt.Sprintf("raw output forwarded %d bytes for %d written", len(all), len(written[0])), cas)
 			}
@@ -258,6 +297,20 @@ func runDecoCase(a args, idx int, r *h.Rand, format string) {
 				}
 				if keep(all) != keep(written[i]) {
 					out.Viol("C19", "raw/bytes-differ", fmt.Sprintf("raw output: task %d's bytes were lost, duplicated or reordered", i), cas)
+				}
+				if dual {
+					keep2 := func(b []byte) string {
+						var o []byte
+						for _, c := range b {
+							if strings.IndexByte(alphabets2[i], c) >= 0 {
+								o = append(o, c)
+							}
+						}
+						return string(o)
+					}
+					if keep2(all) != keep2([]byte(strings.Join(streams2[i].Chunks, ""))) {
+						out.Viol("C19", "raw/bytes-differ/two-streams", fmt.Sprintf("raw output: task %d's stderr bytes were lost, duplicated or reordered", i), cas)
+					}
 				}
 			}
 		}
@@ -288,7 +341,7 @@ func runDecoCase(a args, idx int, r *h.Rand, format string) {
 				payload = bytes.TrimSuffix(payload, []byte("\r\n"))
 				for _, c := range payload {
 					for j := range tasks {
-						if j != owner && strings.IndexByte(alphabets[j], c) >= 0 {
+						if j != owner && (strings.IndexByte(alphabets[j], c) >= 0 || (dual && strings.IndexByte(alphabets2[j], c) >= 0)) {
 							out.Viol("C19", "prefixed/bytes-attributed-to-wrong-task"+sfx, fmt.Sprintf("a line prefixed %s contains byte %q of task %d", tasks[owner].Name, c, j), cas)
 							break
 						}
@@ -299,6 +352,26 @@ func runDecoCase(a args, idx int, r *h.Rand, format string) {
 		}
 		for i := range streams {
 			got, want := normOut(per[i]), normOut(written[i])
+			if dual {
+				// the two streams of a task interleave line by line in an order nobody fixes: compare per stream
+				pick := func(s, alpha string) string {
+					var o []byte
+					for k := 0; k < len(s); k++ {
+						if strings.IndexByte(alpha, s[k]) >= 0 {
+							o = append(o, s[k])
+						}
+					}
+					return string(o)
+				}
+				w2 := normOut([]byte(strings.Join(streams2[i].Chunks, "")))
+				if g2 := pick(got, alphabets2[i]); g2 != pick(w2, alphabets2[i]) {
+					out.Viol("C19", "prefixed/output-differs/two-streams"+sfx, fmt.Sprintf("task %d: its stderr stream (written concurrently with stdout) arrives with %d payload bytes instead of %d", i, len(g2), len(pick(w2, alphabets2[i]))), cas)
+				}
+				if len(got) != len(want)+len(w2) {
+					out.Viol("C19", "prefixed/output-differs/two-streams"+sfx, fmt.Sprintf("task %d: %d bytes decorated for %d+%d written on its two streams", i, len(got), len(want), len(w2)), cas)
+				}
+				got, want = pick(got, alphabets[i]), pick(want, alphabets[i])
+			}
 			if got != want {
 				sig := "prefixed/output-differs"
 				switch {
@@ -394,6 +467,9 @@ func modeFmt1(a args) {
 		t.Condition = "exit 1"
 	case "before-fails":
 		t.Before = []string{"exit 2"}
+	case "both-streams":
+		// an external command writing many lines to stdout and stderr at the same time
+		t.Commands = []string{"sh -c 'i=0; while [ $i -lt 1500 ]; do echo out$i; echo err$i >&2; i=$((i+1)); done'", "printf 'three\\n'"}
 	}
 	r := newQuietRunner()
 	var so syncBuf
